@@ -22,8 +22,9 @@ RULE = ('correspondence: every skymodel.py function and the per-timestep Wea / d
         'boundary-biased altitudes (-90..90 incl. 0, +-1e-9, the DISC/DIRINT thresholds 3, 3.727, the DIRINT '
         'bin edges 10/20/35/50/65, 90), months -1..14, optical depths, cloud cover/humidity/temperature/wind/'
         'pressure ranges, days of year 1..366, the 7 air-mass models (+ upper-case / unknown names), '
-        'time series for DIRINT / Zhang-Huang split, Wea objects (continuous + sun-up filtered, '
-        'timestep 1/2, leap) x surface orientations, ~10 % malformed inputs (rejections compared by error '
+        'time series for DIRINT / Zhang-Huang split, real Wea objects (continuous + sun-up filtered, '
+        'timestep 1/2/4, leap, both states of enforce_on_hour set AFTER construction, sun positions '
+        'taken from the Wea\'s own datetimes) x surface orientations, ~10 % malformed inputs (rejections compared by error '
         'class); floats compared by value: |m - i| <= 1e-12*max(|m|,|i|) + 1e-9; a case is non-trivial when '
         'the implementation returns a value; distinct = distinct (op, request line). Oracle: the clauses of '
         'the statement on the real code (comparisons of floats with 1e-12 relative slack for round-off '
@@ -234,12 +235,14 @@ def _wea_spec(rng, big=False):
     month = rng.randrange(1, 13)
     day = rng.randrange(1, 27)
     ndays = rng.choice([1, 2]) if not big else rng.choice([2, 5])
-    ts = rng.choice([1, 1, 2])
+    ts = rng.choice([1, 1, 1, 2, 4])
     n = ndays * 24 * ts
     dnr = [rng.choice([0.0, rng.uniform(0, 1000), rng.uniform(0, 1000)]) for _ in range(n)]
     dhr = [rng.choice([0.0, rng.uniform(0, 500), rng.uniform(0, 500)]) for _ in range(n)]
     return {'lat': lat, 'lon': lon, 'tz': tz, 'month': month, 'day': day, 'ndays': ndays, 'timestep': ts,
-            'leap': leap, 'dnr': dnr, 'dhr': dhr, 'sun_up_only': rng.random() < 0.25}
+            'leap': leap, 'dnr': dnr, 'dhr': dhr, 'sun_up_only': rng.random() < 0.25,
+            # second step of the sequence build -> set flag -> evaluate (only matters for timestep 1)
+            'enforce_on_hour': rng.random() < 0.5}
 
 
 def _build_wea(spec):
@@ -252,7 +255,17 @@ def _build_wea(spec):
                 w = w2
         except AssertionError:
             pass
+    if spec.get('enforce_on_hour'):       # two-step sequence: build, THEN set the flag, then evaluate
+        w.enforce_on_hour = True
     return w
+
+
+def _corpus_wea(lat, lon, tz, month, day, timestep, leap, enforce):
+    """Deterministic one-day Wea spec for the fixed corpus."""
+    n = 24 * timestep
+    return {'lat': lat, 'lon': lon, 'tz': tz, 'month': month, 'day': day, 'ndays': 1, 'timestep': timestep,
+            'leap': leap, 'dnr': [800.0 + 3.0 * i for i in range(n)], 'dhr': [100.0 + 1.0 * i for i in range(n)],
+            'sun_up_only': False, 'enforce_on_hour': enforce}
 
 
 def _suns(wea):
@@ -437,6 +450,7 @@ def correspondence(ctx):
         dhr = list(wea.diffuse_horizontal_irradiance.values)
         ctx.count('wea:%s' % ('discontinuous' if not wea.is_continuous else 'continuous'))
         ctx.count('wea_timestep:%d' % wea.timestep)
+        ctx.count('wea_enforce_on_hour:%s' % bool(wea.enforce_on_hour))
 
         def guarded(f):
             try:
@@ -457,15 +471,29 @@ def correspondence(ctx):
                   lambda i: pick(ghi, e1, i))
         cmp_batch(ctx, 'dirh', idx, lambda i: 'dirh %s %s' % (fb(suns[i][0]), fb(dnr[i])),
                   lambda i: pick(dh, e2, i))
+        if wea.is_continuous:
+            # Wea.estimate_illuminance_components: per step the Perez model at the Wea's own sun altitude
+            from ladybug.datacollection import HourlyContinuousCollection
+            from ladybug.header import Header
+            from ladybug.datatype.temperature import DewPointTemperature
+            dews = [rng.uniform(-30, 28) for _ in idx]
+            ill, e4 = guarded(lambda: [list(c.values) for c in wea.estimate_illuminance_components(
+                HourlyContinuousCollection(Header(DewPointTemperature(), 'C', wea.analysis_period), dews))])
+            if ghi is not None:
+                cmp_batch(ctx, 'illum_wea', idx,
+                          lambda i: 'illum %s %s %s %s %s none' % (fb(suns[i][0]), fb(ghi[i]), fb(dnr[i]),
+                                                                   fb(dhr[i]), fb(dews[i])),
+                          lambda i: [pick(ill, e4, 0)[i] if e4 is None else pick(None, e4, 0),
+                                     ill[1][i], ill[2][i], ill[3][i]], atol=1e-7)
         up = [i for i in idx if suns[i][0] > 0]
-        surfaces = [(90, 180, 0.2, True), (90, rng.uniform(0, 360), rng.random(), False),
+        surfaces = [(90, 180, 0.2, True), (90, 0, 0.2, True), (90, rng.uniform(0, 360), rng.random(), False),
                     (rng.uniform(-90, 90), rng.uniform(0, 360), rng.random(), True),
                     (rng.uniform(-90, 90), rng.uniform(0, 360), rng.random(), False),
                     (0, rng.choice([0, 90, 180, 270]), 0.2, rng.random() < 0.5), (-90, 0, 0.3, True)]
         if up:
             j = rng.choice(up)
             surfaces.append((suns[j][0], suns[j][1], 0.2, True))        # facing the sun of step j
-        for (sa, sz, refl, iso) in surfaces[:N(4, 7)] + surfaces[-1:]:
+        for (sa, sz, refl, iso) in surfaces[:5 if ctx.quick else 8] + surfaces[-1:]:
             res, e3 = guarded(lambda: [list(c.values) for c in
                                        wea.directional_irradiance(sa, sz, refl, iso)])
             ctx.count('surface:%s' % ('up' if sa == 90 else 'down' if sa == -90 else 'tilted'))
@@ -634,10 +662,22 @@ def check_case(op, inp):
                 s = math.sin(math.radians(alt))
                 if not _rel(ghi[i], dhr[i] + dnr[i] * s):
                     return {'required': 'ghi = dhi + dni*sin(alt) = %r at step %d' % (dhr[i] + dnr[i] * s, i),
-                            'observed': ghi[i], 'sig': {'clause': 'closure', 'where': 'wea_global'}}
+                            'observed': ghi[i], 'sig': {'clause': 'closure', 'where': 'wea_global',
+                                                        'enforce_on_hour': bool(wea.enforce_on_hour)}}
                 if not _rel(dho[i], dnr[i] * s):
                     return {'required': 'direct horizontal = dni*sin(alt) = %r at step %d' % (dnr[i] * s, i),
                             'observed': dho[i], 'sig': {'clause': 'closure', 'where': 'wea_direct_horizontal'}}
+            return None
+        state = {'enforce_on_hour': bool(wea.enforce_on_hour), 'timestep': wea.timestep}
+        if inp.get('face_all'):
+            # every sun-up step: a surface whose normal is the sun vector of that step gets direct = DNI
+            ups = [i for i, s_ in enumerate(suns) if s_[0] > 0][:inp.get('face_limit', 40)]
+            for k in ups:
+                dr = list(wea.directional_irradiance(suns[k][0], suns[k][1], 0.2, True)[1].values)
+                if not _rel(dr[k], dnr[k], 1e-9, 1e-7):
+                    return {'required': 'surface facing the sun of step %d (alt %r, az %r) receives dni = %r'
+                            % (k, suns[k][0], suns[k][1], dnr[k]), 'observed': dr[k],
+                            'sig': dict(state, clause='facing_sun')}
             return None
         sa, sz, refl, iso = inp['surface']
         face = inp.get('face_step')
@@ -651,13 +691,60 @@ def check_case(op, inp):
         for i in range(len(dnr)):
             if not _rel(tot[i], dr[i] + df[i] + rf[i]):
                 return {'required': 'total = direct + diffuse + reflected = %r at step %d' % (
-                    dr[i] + df[i] + rf[i], i), 'observed': tot[i], 'sig': {'clause': 'total_sum'}}
+                    dr[i] + df[i] + rf[i], i), 'observed': tot[i], 'sig': dict(state, clause='total_sum')}
             if sa == 90 and suns[i][0] > 0 and not _rel(tot[i], ghi[i], 1e-9, 1e-7):
                 return {'required': 'upward surface total = global horizontal = %r at step %d' % (ghi[i], i),
-                        'observed': tot[i], 'sig': {'clause': 'up_surface', 'isotropic': bool(iso)}}
+                        'observed': tot[i], 'sig': dict(state, clause='up_surface', isotropic=bool(iso))}
         if face is not None and not _rel(dr[face], dnr[face], 1e-9, 1e-7):
             return {'required': 'surface facing the sun receives dni = %r at step %d' % (dnr[face], face),
-                    'observed': dr[face], 'sig': {'clause': 'facing_sun'}}
+                    'observed': dr[face], 'sig': dict(state, clause='facing_sun')}
+        return None
+    if op == 'illum_wea':
+        # Wea.estimate_illuminance_components on a real Wea: zero at night, finite and direct >= 0 by day
+        from ladybug.datacollection import HourlyContinuousCollection
+        from ladybug.header import Header
+        from ladybug.datatype.temperature import DewPointTemperature
+        wea = _build_wea(dict(inp['wea'], sun_up_only=False))
+        suns = _suns(wea)
+        dew = HourlyContinuousCollection(Header(DewPointTemperature(), 'C', wea.analysis_period),
+                                         [inp['dew']] * len(suns))
+        cols = [list(c.values) for c in wea.estimate_illuminance_components(dew)]
+        for i, (alt, _az) in enumerate(suns):
+            vals = [c[i] for c in cols]
+            if alt <= 0 and any(v != 0 for v in vals):
+                return {'required': 'illuminance 0 at sun altitude %r (step %d)' % (alt, i), 'observed': vals,
+                        'sig': {'clause': 'night_zero', 'model': 'wea_illuminance',
+                                'enforce_on_hour': bool(wea.enforce_on_hour)}}
+            if not _fin(vals) or vals[1] < 0:
+                return {'required': 'finite, direct normal illuminance >= 0 (step %d)' % i, 'observed': vals,
+                        'sig': {'clause': 'nonneg', 'model': 'wea_illuminance'}}
+        return None
+    if op == 'wea_constructor':
+        # the sky-model constructors of Wea (annual): zero at/below the horizon at the Wea's datetimes,
+        # finite, DNI/GHI >= 0, closure
+        from ladybug.wea import Wea
+        loc = _mk_location(inp['lat'], inp['lon'], inp['tz'])
+        if inp['kind'] == 'ashrae_clear_sky':
+            wea = Wea.from_ashrae_clear_sky(loc, inp['clearness'], inp['timestep'], inp['leap'])
+        else:
+            wea = Wea.from_ashrae_revised_clear_sky(loc, [inp['tb']] * 12, [inp['td']] * 12, inp['timestep'],
+                                                    inp['leap'], inp['use2017'])
+        suns = _suns(wea)
+        dnr = list(wea.direct_normal_irradiance.values)
+        dhr = list(wea.diffuse_horizontal_irradiance.values)
+        ghi = list(wea.global_horizontal_irradiance.values)
+        for i, (alt, _az) in enumerate(suns):
+            if alt <= 0 and (dnr[i] != 0 or dhr[i] != 0 or ghi[i] != 0):
+                return {'required': 'zero at sun altitude %r (step %d)' % (alt, i),
+                        'observed': (dnr[i], dhr[i], ghi[i]),
+                        'sig': {'clause': 'night_zero', 'model': 'wea_' + inp['kind']}}
+            if not _fin([dnr[i], dhr[i], ghi[i]]) or dnr[i] < 0 or ghi[i] < 0:
+                return {'required': 'finite, dni >= 0, ghi >= 0 (step %d)' % i,
+                        'observed': (dnr[i], dhr[i], ghi[i]),
+                        'sig': {'clause': 'nonneg', 'model': 'wea_' + inp['kind']}}
+            if not _rel(ghi[i], dhr[i] + dnr[i] * math.sin(math.radians(alt))):
+                return {'required': 'ghi = dhi + dni*sin(alt) at step %d' % i, 'observed': ghi[i],
+                        'sig': {'clause': 'closure', 'where': 'wea_' + inp['kind']}}
         return None
     if op == 'closure_designday':
         from ladybug.designday import DesignDay, DryBulbCondition, HumidityCondition, WindCondition, \
@@ -777,6 +864,16 @@ FIXED_CORPUS = [
     ('skytemp_inverse', {'emissivity': 0.85, 't_kelvin': 288.15, 'sky_cover': 3, 'db': 15.0, 'dp': 5.0}),
     ('extra_range', {'sc': 1366.1}),
 ]
+# real Wea objects: build, set enforce_on_hour (second step), then evaluate -- both flag states, timestep 1 and
+# >1, leap / non-leap, northern and southern hemisphere
+for _loc, _md, _ts, _leap in (((41.98, -87.92, -6), (6, 21), 1, False), ((-33.9, 151.2, 10), (12, 21), 1, True),
+                              ((41.98, -87.92, -6), (3, 20), 2, False), ((-33.9, 151.2, 10), (6, 21), 4, False)):
+    for _enf in (False, True):
+        _w = _corpus_wea(_loc[0], _loc[1], _loc[2], _md[0], _md[1], _ts, _leap, _enf)
+        FIXED_CORPUS.append(('closure_wea', {'wea': _w}))
+        FIXED_CORPUS.append(('surface_wea', {'wea': _w, 'surface': [90, 0, 0.2, True]}))
+        FIXED_CORPUS.append(('surface_wea', {'wea': _w, 'surface': [0, 0, 0.2, True], 'face_all': True}))
+        FIXED_CORPUS.append(('illum_wea', {'wea': _w, 'dew': 8.0}))
 
 
 def _params(rng, name):
@@ -839,6 +936,18 @@ def _oracle_cases(ctx):
         yield 'surface_wea', {'wea': spec, 'surface': [rng.uniform(-90, 90), rng.uniform(0, 360), rng.random(),
                                                        rng.random() < 0.5]}
         yield 'surface_wea', {'wea': spec, 'surface': [0, 0, 0.2, True], 'face_step': rng.randrange(1000)}
+        yield 'surface_wea', {'wea': spec, 'surface': [90, 0, 0.2, True]}
+        yield 'surface_wea', {'wea': spec, 'surface': [0, 0, 0.2, True], 'face_all': True, 'face_limit': 12}
+        yield 'illum_wea', {'wea': spec, 'dew': rng.uniform(-30, 28)}
+    for _ in range(6 if big else 1):
+        lat, lon, tz = rng.choice(gen_locations(rng))
+        base = {'lat': lat, 'lon': lon, 'tz': tz, 'timestep': rng.choice([1, 1, 2]) if big else 1,
+                'leap': rng.random() < 0.3}
+        if rng.random() < 0.5:
+            yield 'wea_constructor', dict(base, kind='ashrae_clear_sky', clearness=rng.choice([1, 1.2, 0.8]))
+        else:
+            yield 'wea_constructor', dict(base, kind='ashrae_revised_clear_sky', tb=rng.uniform(0.2, 0.8),
+                                          td=rng.uniform(1.5, 2.8), use2017=rng.random() < 0.5)
     for _ in range(100 if big else 36):
         lat, lon, tz = rng.choice(gen_locations(rng))
         base = {'lat': lat, 'lon': lon, 'tz': tz, 'month': rng.randrange(1, 13), 'day': rng.randrange(1, 28),
